@@ -442,7 +442,9 @@ func genVer(t *rapid.T, label string, stored bool) Ver {
 			v.JunkVal = model.Bytes("junk")
 		}
 	} else {
-		v.Val = rapid.SampledFrom([]model.Bytes{{}, {}, []byte("a"), []byte("b"), []byte("ab"), {0}, {0, 0}, {0xff}, []byte("a\x00")}).Draw(t, label+"_val")
+		v.Val = rapid.SampledFrom([]model.Bytes{{}, {}, []byte("a"), []byte("b"), []byte("ab"), {0}, {0, 0}, {0xff}, []byte("a\x00"),
+			// long values that agree on their first 127 / 128 / 300 bytes and differ after that, or only in length
+			c02Long(127, "x"), c02Long(127, "y"), c02Long(128, "x"), c02Long(128, "y"), c02Long(128, ""), c02Long(300, "a"), c02Long(300, "b")}).Draw(t, label+"_val")
 		if rapid.IntRange(0, 9).Draw(t, label+"_long") == 0 {
 			v.Val = bytes.Repeat([]byte{'z'}, rapid.IntRange(1000, 1100).Draw(t, label+"_vlen")) // beyond the iterator's 1 KiB buffer
 		}
@@ -777,3 +779,11 @@ func TestC02Update(t *testing.T) {
 }
 
 var _ = io.EOF
+
+func c02Long(n int, tail string) model.Bytes {
+	b := make([]byte, 0, n+len(tail))
+	for i := 0; i < n; i++ {
+		b = append(b, 'P')
+	}
+	return append(b, tail...)
+}
